@@ -6,6 +6,7 @@ use skrifa::{outline::pen::PathElement, GlyphId};
 use proptest::strategy::Strategy;
 use vcore::*;
 mod synth;
+mod cffsynth;
 
 #[derive(Clone, Debug, Serialize, Deserialize)]
 struct Case {
@@ -187,10 +188,11 @@ fn full_grid() -> Vec<u32> {
 
 fn main() {
     let ctx = Ctx::from_args("C03");
-    ctx.set_rule("every static (no fvar) glyf or CFF font of the repository corpus + the vendored DejaVu/Liberation/FiraSans fonts x all glyphs x {font units; ppem grid: every integer 1..=256, 288..=1024 step 32, 1200, 1500, 1600, 1800, 2000 (thorough) / a seeded 40-size sample per font and mode (quick)} x {unhinted, interpreter x {mono, normal, light, LCD, vertical LCD}, autohinter (normal) on the frozen agreement fonts}; FreeType side and path normalisation through fauntlet's adapters (FreeTypeInstance, SkrifaInstance, RegularizingPen); oracle: exact equality of the regularised command streams and of the advance width where skrifa reports one. A case = (font, mode, ppem) comparing all glyphs; evaluations count glyph comparisons. Non-trivial: the case compared >= 1 glyph with a non-empty outline and (for hinted modes) the font carries fpgm/prep or CFF hints; distinct by (font, mode, ppem).");
+    ctx.set_rule("every static (no fvar) glyf or CFF font of the repository corpus + the vendored DejaVu/Liberation/FiraSans fonts x all glyphs x {font units; ppem grid: every integer 1..=256, 288..=1024 step 32, 1200, 1500, 1600, 1800, 2000 (thorough) / a seeded 40-size sample per font and mode (quick)} x {unhinted, interpreter x {mono, normal, light, LCD, vertical LCD}, autohinter (normal) on the frozen agreement fonts}; FreeType side and path normalisation through fauntlet's adapters (FreeTypeInstance, SkrifaInstance, RegularizingPen); oracle: exact equality of the regularised command streams and of the advance width where skrifa reports one. A case = (font, mode, ppem) comparing all glyphs; evaluations count glyph comparisons. Non-trivial: the case compared >= 1 glyph with a non-empty outline and (for hinted modes) the font carries fpgm/prep or CFF hints; distinct by (font, mode, ppem). Stage `synthetic-cff`: generated static OpenType/CFF fonts (4-9 glyphs; name-keyed or CID-keyed with two font DICTs; FontMatrix absent / 0.001 / 0.0005 with 2000 upem / 0.002 with 500 upem) whose Type 2 charstrings are valid by construction: optional width operand, 0-24 stems over hstem/vstem/hstemhm/vstemhm operators (sorted; ghost stems; overlapping stems; edges placed on blue-zone values), implied vstems before the first mask, cntrmask / hintmask with exact lengths before and inside contours, all 14 path operators with well-formed operand counts up to the 48-entry stack, contours left open / closed by a line / closed by a curve, every operand encoding incl. 16.16, any token range moved into local / global subroutines nested to depth 6 with Subr INDEX counts 0,1,2,5,9,106,107,108,300,1239..1242,2000,33899..33901,40000 and correctly biased numbers; Private DICTs with BlueValues / OtherBlues / FamilyBlues / FamilyOtherBlues, BlueScale / BlueShift / BlueFuzz, StdHW / StdVW / StemSnap, LanguageGroup, nominal / default width. Every glyph is compared with FreeType unhinted at three seeded sizes in 8..=200 ppem and in font units, and hinted (all five targets, two seeded sizes each in 8..=200): hinted comparison is complete, nothing is restricted to agreeing classes; a case is one font, non-trivial when at least one compared outline is non-empty, distinct by font. Stage `synthetic-cff-focus`: the same fonts with one of four constructs made frequent (FamilyBlues + FamilyOtherBlues near the font's zones; hintmask operators repeating the mask in effect; zero-length lines after a hintmask inside a contour; a minimised font with fractional stems below the baseline at its critical size).");
     ctx.assume("the oracle is the FreeType version built by freetype-sys as linked by fauntlet (2.12.1); listed discrepancies of the unchanged tree are excluded from the grid by construction and reproduced in a dedicated stage");
     ctx.assume("the autohinter is compared only on the frozen font list corpus/c03_auto_agree.json (fonts on which skrifa's autohinter agrees with this FreeType build at every grid size on the unchanged tree): FreeType 2.12.1's autohinter differs from the newer one skrifa ports on most other fonts, and the property restricts the autohinter to where the baseline agrees");
     ctx.assume("stage `synthetic` generates only programs whose result both engines define independently of what was loaded before: operands in range for the zone they are read through (tracked zp0-2 / rp0-2), twilight points written by glyph programs are re-initialised by each glyph program that uses the twilight zone (FreeType keeps them across glyphs), the control value program starts by putting twilight zone, storage and graphics state into the clean state (FreeType runs it twice for smooth targets without clearing), WCVTF in glyph programs only after a WCVTP of the same program (FreeType 2.12.1 writes the size's CVT otherwise), 32-bit-safe arithmetic, SDPVTL[perpendicular] only on points with distinct original positions, forward jumps only; see vft/src/synth.rs");
+    ctx.assume("stage `synthetic-cff` stays inside what the Type 2 specification and both engines define: stem operators before the first moveto (hstem* before vstem*), masks as long as the declared stems need, every path operator after a moveto with a well-formed operand count, at most 46 operands on the stack, subroutine nesting <= 6, no seac-style endchar, no arithmetic / storage operators, advance widths come from hmtx; the FontMatrix variants keep the matrix consistent with head.unitsPerEm; see vft/src/cffsynth.rs");
     let fonts = static_outline_fonts();
     ctx.note("fonts", serde_json::json!(fonts.iter().map(|f| f.name.clone()).collect::<Vec<_>>()));
     let grid = full_grid();
@@ -298,7 +300,172 @@ fn main() {
         }
         f
     }), |f: &synth::SynthFont, s| test_synth(f, s, false));
+    // generated static CFF fonts (valid Type 2 charstrings by construction: stems, masks, every path operator, flex,
+    // local / global subroutines with INDEX counts around the bias boundaries, blue zones): see vft/src/cffsynth.rs
+    ctx.prop_stage("synthetic-cff", Isolation::Threads, ctx.n(30_000, 300_000), cffsynth::strategy, |f: &cffsynth::CffSynth, s| test_cff(f, s, !no_exclude));
+    // four constructs on which skrifa once differed from FreeType (FamilyOtherBlues, repeated hintmask, zero-length
+    // lines after a hintmask, stem-centre rounding), made frequent
+    ctx.prop_stage("synthetic-cff-focus", Isolation::Threads, ctx.n(4_000, 16_000), || (cffsynth::strategy(), 0u8..4).prop_map(|(f, k)| cffsynth::focus(f, k)), |f: &cffsynth::CffSynth, s| test_cff(f, s, !no_exclude));
     ctx.finish();
+}
+
+fn test_cff_inner(f: &cffsynth::CffSynth, stats: &Stats, skip_known: bool, size_seed: u64) -> CaseResult {
+    let built = cffsynth::build(f);
+    let dir = verif_dir().join("harness/target/tmp/c03-synth-cff");
+    static SERIAL: std::sync::atomic::AtomicU64 = std::sync::atomic::AtomicU64::new(0);
+    let h = hash_json(f);
+    let path = dir.join(format!("{}-m{}-{:016x}.otf", std::process::id(), SERIAL.fetch_add(1, std::sync::atomic::Ordering::Relaxed), h));
+    std::fs::write(&path, &built.bytes).map_err(|e| Fail::new("c03|harness|tmp-write", e.to_string()))?;
+    let r = compare_cff(&path, f, &built, size_seed, stats, skip_known);
+    let _ = std::fs::remove_file(&path);
+    r
+}
+
+fn test_cff(f: &cffsynth::CffSynth, stats: &Stats, skip_known: bool) -> CaseResult {
+    let built = cffsynth::build(f);
+    let dir = verif_dir().join("harness/target/tmp/c03-synth-cff");
+    let _ = std::fs::create_dir_all(&dir);
+    // unique per call: equal fonts may be under test in several threads at once (the file is memory-mapped)
+    static SERIAL: std::sync::atomic::AtomicU64 = std::sync::atomic::AtomicU64::new(0);
+    let h = hash_json(f);
+    let path = dir.join(format!("{}-{}-{:016x}.otf", std::process::id(), SERIAL.fetch_add(1, std::sync::atomic::Ordering::Relaxed), h));
+    std::fs::write(&path, &built.bytes).map_err(|e| Fail::new("c03|harness|tmp-write", e.to_string()))?;
+    let r = compare_cff(&path, f, &built, h, stats, skip_known);
+    let _ = std::fs::remove_file(&path);
+    if let Err(e) = &r {
+        // development aid: structural minimisation of the first failure (VERIF_C03_CFF_MIN=<out.json>)
+        static ONCE: std::sync::atomic::AtomicBool = std::sync::atomic::AtomicBool::new(false);
+        if let (Ok(out), false) = (std::env::var("VERIF_C03_CFF_MIN"), std::env::var("VERIF_C03_CFF_MIN_INNER").is_ok()) {
+            if !ONCE.swap(true, std::sync::atomic::Ordering::SeqCst) {
+                let sig = e.sig.clone();
+                let quiet = Stats::default();
+                let min = cffsynth::minimise(f, &|c| matches!(test_cff_inner(c, &quiet, skip_known, h), Err(x) if x.sig == sig));
+                let msg = test_cff_inner(&min, &quiet, skip_known, h).err().map(|x| x.msg).unwrap_or_default();
+                let _ = std::fs::write(&out, serde_json::to_string(&min).unwrap());
+                let _ = std::fs::write(format!("{out}.otf"), cffsynth::build(&min).bytes);
+                eprintln!("MINIMISED [{sig}] {msg}\n{}", cffsynth::listing(&min));
+            }
+        }
+    }
+    r
+}
+
+fn compare_cff(path: &std::path::Path, f: &cffsynth::CffSynth, built: &cffsynth::Built, h: u64, stats: &Stats, _skip_known: bool) -> CaseResult {
+    let Some(mut font) = Font::new(path) else {
+        return Err(Fail::new("c03|synthetic-cff|harness|font-not-loadable", "fauntlet cannot open the generated font".to_string()));
+    };
+    let mut compared = 0u64;
+    let mut nonempty = 0u64;
+    for mode in 0u8..=5 {
+        // seeded sizes in 8..=200: three (+ font units) unhinted, two per hinted mode
+        let sizes: Vec<u32> = if mode == 0 { (0..3).map(|k| 8 + (mix(h, k) % 193) as u32).chain([0]).collect() } else { (0..2).map(|k| 8 + (mix(h, mode as u64 * 16 + k) % 193) as u32).collect() };
+        let sizes: Vec<u32> = sizes.into_iter().chain(f.ppems.iter().copied().filter(|p| (1..=2000).contains(p))).collect();
+        // development aid: fixed sizes
+        let sizes: Vec<u32> = match std::env::var("VERIF_C03_CFF_PPEM") {
+            Ok(v) => v.split(',').filter_map(|x| x.parse().ok()).collect(),
+            _ => sizes,
+        };
+        for &ppem in &sizes {
+            let opts = InstanceOptions::new(0, ppem, &[], mode_of(mode));
+            let Some((mut ft, mut sk)) = font.instantiate(&opts) else {
+                return Err(Fail::new("c03|synthetic-cff|harness|no-instance", format!("no instance at mode {mode} ppem {ppem}")));
+            };
+            for gid in 0..built.num_glyphs {
+                let g = GlyphId::from(gid);
+                let mut fo: Vec<PathElement> = vec![];
+                let mut so: Vec<PathElement> = vec![];
+                let fa = ft.outline(g, &mut RegularizingPen::new(&mut fo, ppem != 0));
+                let sa = sk.outline(g, &mut RegularizingPen::new(&mut so, ppem != 0));
+                let facts = &built.facts[gid as usize];
+                let class = if facts.masks > 0 { "hintmask" } else if facts.nh + facts.nv > 0 { "stems" } else { "no-hints" };
+                let Some(fa) = fa else {
+                    // valid by construction: FreeType must load every glyph
+                    return Err(Fail::new(format!("c03|synthetic-cff|{}|freetype-load-error", mode_kind(mode)), format!("generated CFF font, glyph {gid}, mode {:?}, ppem {ppem}: FreeType cannot load the glyph (skrifa: {:?})", mode_of(mode), sa.map(|_| so.len()))));
+                };
+                compared += 1;
+                if !fo.is_empty() {
+                    nonempty += 1;
+                }
+                let mut why = None;
+                match sa {
+                    Err(e) => why = Some(format!("skrifa error {e} where FreeType produced an outline")),
+                    Ok(sa) => {
+                        if fo != so {
+                            let k = fo.iter().zip(so.iter()).position(|(a, b)| a != b).unwrap_or(fo.len().min(so.len()));
+                            why = Some(format!("paths differ at command {k}: FreeType {:?} vs skrifa {:?} ({} vs {} commands)", fo.get(k), so.get(k), fo.len(), so.len()));
+                        } else if let Some(sa) = sa {
+                            if sa != fa {
+                                why = Some(format!("advance width differs: FreeType {fa} vs skrifa {sa}"));
+                            }
+                        }
+                    }
+                }
+                if let Some(w) = why {
+                    if std::env::var("VERIF_C03_DEBUG").is_ok() {
+                        eprintln!("DEBUG mode {mode} ppem {ppem} gid {gid}: {w}\n   FT {fo:?}\n   SK {so:?}");
+                        continue;
+                    }
+                    return Err(Fail::new(format!("c03|synthetic-cff|{}|{}", mode_kind(mode), class), format!("generated CFF font (upem {}, {} global subrs, local {:?}), glyph {gid}, mode {:?}, ppem {ppem}: {w}", built.upem, built.ng, built.nl, mode_of(mode))));
+                }
+            }
+        }
+    }
+    stats.evals(compared);
+    stats.class_n("cff_glyph_comparisons", compared);
+    stats.class_n("cff_nonempty_glyph_comparisons", nonempty);
+    // distribution
+    stats.class(&format!("cff_gsubr_count:{}", built.ng));
+    for n in &built.nl {
+        stats.class(&format!("cff_lsubr_count:{n}"));
+    }
+    stats.class(["cff_matrix:none", "cff_matrix:0.001", "cff_matrix:0.0005/upem2000", "cff_matrix:0.002/upem500"][f.matrix as usize % 4]);
+    if f.cid {
+        stats.class(if f.fdsel3 { "cff_cid_fdselect3" } else { "cff_cid_fdselect0" });
+    }
+    for p in f.privs.iter().take(built.nl.len()) {
+        stats.class(["cff_langgroup:absent", "cff_langgroup:0", "cff_langgroup:1"][p.lang_group as usize % 3]);
+        if p.blues.is_empty() { stats.class("cff_no_blue_values"); }
+        if !p.family_blues.is_empty() { stats.class("cff_family_blues"); }
+        if p.blue_scale != 0 { stats.class("cff_blue_scale_set"); }
+        if p.blue_shift.is_some() { stats.class("cff_blue_shift_set"); }
+        if p.blue_fuzz.is_some() { stats.class("cff_blue_fuzz_set"); }
+    }
+    let mut kinds = 0u16;
+    for x in &built.facts {
+        kinds |= x.seg_kinds;
+        stats.class(match x.nh + x.nv { 0 => "cff_glyph_stems:0", 1..=4 => "cff_glyph_stems:1-4", 5..=12 => "cff_glyph_stems:5-12", _ => "cff_glyph_stems:13-24" });
+        stats.class_n("cff_hintmasks", x.masks as u64);
+        stats.class_n("cff_cntrmasks", x.cntrmasks as u64);
+        stats.class_n("cff_ghost_stems", x.ghosts as u64);
+        stats.class_n("cff_overlapping_stems", x.overlaps as u64);
+        stats.class_n("cff_stems_on_blue_zone", x.snapped as u64);
+        stats.class_n("cff_callsubr", x.calls_l as u64);
+        stats.class_n("cff_callgsubr", x.calls_g as u64);
+        stats.class_n("cff_cuts_skipped", x.cuts_skipped as u64);
+        stats.class_n("cff_hintmask_repeating_mask_in_effect", x.repeated_masks as u64);
+        stats.class_n("cff_zero_length_lines_after_hintmask", x.zero_lines_after_mask as u64);
+        stats.class_n("cff_hstems_with_odd_negative_centre", x.odd_midpoints as u64);
+        stats.class_n("cff_contours_closed_by_curve_after_hintmask", x.closing_curves_after_mask as u64);
+        stats.class_n("cff_zero_length_lines", x.zero_lines as u64);
+        stats.class_n("cff_contours_closed_by_curve", x.closing_curves as u64);
+        stats.class_n("cff_fixed_operands", x.fixed_nums as u64);
+        if x.width { stats.class("cff_glyph_width_operand"); }
+        if x.implied_v { stats.class("cff_glyph_implied_vstem"); }
+        if x.stems_in_subr { stats.class("cff_glyph_hints_in_subr"); }
+        stats.class(&format!("cff_glyph_subr_depth:{}", x.depth));
+    }
+    for k in 0..14 {
+        if kinds & (1 << k) != 0 {
+            stats.class(&format!("cff_font_uses:{}", cffsynth::SEG_NAMES[k]));
+        }
+    }
+    if nonempty > 0 {
+        stats.nontrivial(h);
+        if stats.want_sample() && h % 64 == 0 {
+            stats.sample(serde_json::json!({"glyphs": built.num_glyphs, "gsubrs": built.ng, "lsubrs": built.nl, "upem": built.upem, "cid": f.cid, "comparisons": compared}));
+        }
+    }
+    Ok(())
 }
 
 /// minimised generated fonts, one per listed interpreter discrepancy (sigs `c03|synthetic|interpreter|*|<class>`)
